@@ -78,7 +78,8 @@ func VH_C03_hostile() {
 	for i := 0; i < k && !offending; i++ {
 		if v.Bool("is-data") {
 			// content for an id that was not requested (the peer never waits for a REQ)
-			snd.SendMsg(&types.Packet{Type: types.PACKET_DATA, ID: v.U32("id"), Data: []byte{1}})
+			// (a payload byte, or the empty terminator)
+			snd.SendMsg(&types.Packet{Type: types.PACKET_DATA, ID: v.U32("id"), Data: make([]byte, v.Choose("data-len", 2))})
 			offending = true
 			v.Cover("unrequested-data")
 			break
